@@ -3,7 +3,7 @@
 # Confirms a seeded change (/tmp/seed-out/<ID>/<k>): demo passes on clean tree, fails with patch, suite baseline unchanged
 # with patch; then runs the quick check(s) against the patched tree. All in a scratch worktree.
 id=$1; k=$2; shift 2; checks=${@:-$id}
-src=/tmp/seed-out/$id/$k
+src=${SEED_OUT:-/tmp/seed-out}/$id/$k
 name=ev-$id-$k-$$
 d=$(/verif/tools/scratch.sh new $name) || exit 2
 echo "== demo on clean tree"; (cd /tmp && PYTHONPATH=$d/src timeout 120 /venv/bin/python $src/demo.py >/tmp/$name.clean.log 2>&1; echo "exit=$?")
